@@ -253,7 +253,7 @@ func runC20(c *core.Ctx) {
 	} else {
 		c.SetDeadline(5 * 60e9)
 	}
-	c.SetRule("BFS over timed event sequences (tick = HeartBtInt/5 of virtual time; a timer event is enabled only when its virtual deadline is due; time cannot pass a due timer) on a real logged-on session with virtual EventTimers, heartbeat intervals 30 s configured / 20 s announced and 7 s configured / 3 s announced; timed reference model checked on every transition")
+	c.SetRule("BFS over timed event sequences (tick = HeartBtInt/5 of virtual time; a timer event is enabled only when its virtual deadline is due; time cannot pass a due timer) on a real logged-on session with virtual EventTimers, heartbeat intervals 30 s configured / 20 s announced and 7 s configured / 3 s announced; timed reference model checked on every transition; plus, on a real Initiator+Acceptor pair (run loops, connection loops, real EventTimers) inside a testing/synctest bubble: every script of per-tick actions {network delivers, nothing reaches the acceptor / the initiator / either, an order whose application callback takes 1.5 quarter-intervals on the receiving side, cut + initiator recreated with another interval} up to a depth, judged by the timed clauses R1-R5 on the stamped wire log (exact virtual time)")
 	c.Assume("virtual time: EventTimer.Reset is intercepted (hook H3) and the explorer fires timers", "relative state keys incl. timer deadlines relative to the virtual clock",
 		"unparsable inbound bytes count as 'something received'", "recovery clause is judged by the C04 reference model running alongside")
 	for _, ini := range []bool{false, true} {
@@ -283,5 +283,6 @@ func runC20(c *core.Ctx) {
 		}
 	}
 	runConformance(c)
+	runC20E2E(c)
 	c.Set("depth_events", depth)
 }
